@@ -391,9 +391,12 @@ let c13 h : string list =
           else if ln.t <> !pause_t + pt then
             hits := (Printf.sprintf "c13:pause-length t=%d paused at %d for %d ns, PauseTime is %d ns" ln.t !pause_t (ln.t - !pause_t) pt) :: !hits;
           pause_t := -1
-      | "L", (("batch" | "request" | "giveme" | "auditskip" | "auditpass" | "auditfail" | "capread" | "flushstart") as k) :: _ ->
+      | "L", (("batch" | "request" | "giveme" | "auditskip" | "auditpass" | "auditfail" | "capread" | "flushstart" | "shutdown") as k) :: _ ->
           if !pause_t >= 0 then hits := (Printf.sprintf "c13:activity-while-paused t=%d %s between pause and resume" ln.t k) :: !hits
       | _ -> ()) h.lines;
+  let last_t = List.fold_left (fun a ln -> max a ln.t) 0 h.lines in
+  if !pause_t >= 0 && last_t > !pause_t + pt then
+    hits := (Printf.sprintf "c13:no-resume t=%d the pause that began at %d was never followed by a resume event" last_t !pause_t) :: !hits;
   List.rev !hits
 
 (* ------------------------------------------------------------------ C12 / C19: one request (audit) per tick while running *)
@@ -438,7 +441,60 @@ let per_tick h ~interval ~(is_ev : string list -> bool) ~name ~need_limiter : st
   end;
   List.rev !hits
 
+(* the demand figure re-computed from the history alone: +cost when a valid Enqueue is issued,
+   -cost again when the buffer refuses it, -batch cost when a batch finishes (callback return or
+   time-out, whichever comes first), 0 after a failing audit.  Returns the value just before
+   time t together with a flag telling whether something also changes it exactly at t. *)
+let demand_at h : int -> int * bool =
+  let calls = calls_of h in
+  let info = obj_info h calls in
+  let evs = ref [] in   (* (time, order, change) *)
+  let raised = ref [] in
+  List.iter (fun ln ->
+      match ln.src, ln.w with
+      | "L", "batch" :: rest -> let (w, ids, _) = ids_of rest in raised := { bt = ln.t; bw = w; bids = ids; cbret = None } :: !raised
+      | _, "cbret" :: rest ->
+          let (w, ids, _) = ids_of rest in
+          (match List.find_opt (fun b -> b.bw = w && b.bids = ids && b.cbret = None) (List.rev !raised) with
+           | Some b -> b.cbret <- Some ln.t | None -> ())
+      | "L", ["auditfail"; "1"; _] -> evs := (ln.t, `Reset) :: !evs
+      | _ -> ()) h.lines;
+  Array.iter (fun c ->
+      if not c.nil && c.cw >= 0 then
+        match c.ret with
+        | Some (_, r) when r >= 1 && r <= 4 -> ()
+        | Some (rt, r) when r = 5 || r = 6 -> evs := (rt, `Sub c.cost) :: (c.ct, `Add c.cost) :: !evs
+        | _ -> evs := (c.ct, `Add c.cost) :: !evs) calls;
+  List.iter (fun b ->
+      let fin = match b.cbret with Some t -> min t (b.bt + timeout_of h b.bw) | None -> b.bt + timeout_of h b.bw in
+      let total = List.fold_left (fun a id -> match Hashtbl.find_opt info id with Some c -> a + c.costd | None -> a) 0 b.bids in
+      evs := (fin, `Sub total) :: !evs) !raised;
+  let evs = List.stable_sort (fun (a, _) (b, _) -> compare a b) (List.rev !evs) in
+  (* a reset that shares its instant with another change is ambiguous in order: give up from there on *)
+  let taint = List.fold_left (fun acc (t, e) ->
+      match e with
+      | `Reset -> if List.exists (fun (t2, e2) -> t2 = t && e2 <> `Reset) evs then min acc t else acc
+      | _ -> acc) max_int evs in
+  fun t ->
+    let v = ref 0 and same = ref (t >= taint) in
+    List.iter (fun (et, e) ->
+        if et < t then (match e with `Add c -> v := !v + c | `Sub c -> v := max 0 (!v - c) | `Reset -> v := 0)
+        else if et = t then same := true) evs;
+    (!v, !same)
+
 let c12 h =
+  let calls = calls_of h in
+  let shifty = Array.exists (fun c -> c.cost <> c.costd) calls in
+  let d = demand_at h in
+  let vals = if shifty then [] else
+      List.filter_map (fun ln -> match ln.src, ln.w with
+          | "L", ["giveme"; v] ->
+              let (e, same) = d ln.t in
+              if not same && ios v <> e then
+                Some (Printf.sprintf "c12:stale-value t=%d GiveMe(%s) but the demand figure at that moment is %d" ln.t v e)
+              else None
+          | _ -> None) h.lines in
+  vals @
   let a = per_tick h ~interval:(eff h.capint (100 * ms)) ~is_ev:(function "giveme" :: _ -> true | _ -> false) ~name:"c12" ~need_limiter:true in
   (* the value passed is the demand figure of that moment: compare with a sample taken at the same instant when nothing else moved *)
   a
@@ -552,7 +608,9 @@ let c08 h : string list =
   List.rev !hits
 
 let c11 h = accounting h
-let c03 h = accounting ~check_inflight:false h
+let c03 h =
+  accounting ~check_inflight:false h
+  @ List.filter_map (fun s -> if String.length s > 14 && String.sub s 0 14 = "c19:audit-fail" then Some ("c03:reset-by-audit " ^ s) else None) (c19 h)
 let c10 h =
   let hyp = Array.for_all (fun (_, _, wm) -> wm <= eff h.maxop (60_000 * ms)) h.watchers in
   accounting ~check_needs:false h
@@ -564,7 +622,8 @@ let c10 h =
 
 let monitor (pid : string) (h : hist) : string list =
   match pid with
-  | "C01" -> c01 h @ c08 h | "C02" -> c02 h | "C03" -> c03 h | "C05" -> c05 h | "C08" -> c08 h @ c01 h
+  | "C01" -> c01 h @ c08 h | "C02" -> c02 h | "C03" -> c03 h | "C05" -> c05 h
+  | "C08" -> c08 h @ c01 h @ List.filter (fun s -> String.length s > 22 && String.sub s 0 22 = "c15:blocked-with-space") (c15 h)
   | "C10" -> c10 h | "C11" -> c11 h | "C12" -> c12 h | "C13" -> c13 h @ c01 h | "C14" -> c14 h
   | "C15" -> c15 h | "C16" -> c16 h | "C19" -> c19 h
   | _ -> []
